@@ -7,6 +7,7 @@
 //!         4 get_and_reset  5 clone  6 reset  7 is_bit_set i
 //!   schedule semantics: entry t = thread t performs its next primitive; entries naming a thread
 //!   that has finished are skipped; after the schedule the remaining threads finish in id order.
+//!   The bitmap is built by new(byte_size) or by growing a smaller one with enlarge (route derived from the case, see exec).
 //! obs:   nevents [tid,op index,kind(0 load,1 store,2 fetch_or,3 fetch_and),word,operand,old]*
 //!        [pages set at the end, scanned 0..len+70]  then one [result] per operation, thread by
 //!        thread: get_and_reset -> words, clone -> pages set in the clone, is_bit_set -> [b], else []
@@ -150,7 +151,30 @@ fn exec_inner(case: &[Tok]) -> Vec<Tok> {
         progs[o[0]].push(o[1..].to_vec());
     }
     set_atomic_hooks(None, None);
-    let bm = Arc::new(AtomicBitmap::new(bytes, NonZeroUsize::new(ps).expect("page size 0")));
+    // how the bitmap reaches its size is chosen by the case itself (route = (byte_size + page_size + #initial
+    // pages) mod 3): 0 new(byte_size); 1 new(s0) + enlarge + enlarge, the first within the slack of the last page
+    // where possible; 2 new(s0) + one enlarge.  The model knows only the final size: state left behind by enlarge
+    // must not change what marking and harvesting do.
+    let psz = NonZeroUsize::new(ps).expect("page size 0");
+    let route = (bytes % 3 + ps % 3 + init.len() % 3) % 3;
+    let bm = if route == 0 || bytes < 2 {
+        AtomicBitmap::new(bytes, psz)
+    } else {
+        let s0 = bytes - bytes / 2;
+        let mut b = AtomicBitmap::new(s0, psz);
+        if route == 1 {
+            let slack = (ps - s0 % ps) % ps;
+            let k1 = std::cmp::min(bytes - s0, std::cmp::max(1, slack / 2));
+            b.enlarge(k1);
+            if bytes - s0 - k1 > 0 {
+                b.enlarge(bytes - s0 - k1);
+            }
+        } else {
+            b.enlarge(bytes - s0);
+        }
+        b
+    };
+    let bm = Arc::new(bm);
     for p in &init {
         bm.set_bit(*p);
     }
